@@ -28,8 +28,9 @@ VARIABLES prog,    \* Seq of lines; a line is [k: kind, items: Seq(Item), st: st
           elseOK,  \* depth at which an else / else if may come next, 0 = none
           ndecl,   \* declarations of the current function
           viol,    \* [op, line, code] or NoViol
-          scope    \* the engine's scope chain as the implementation keeps it: Seq of [name, multi]
-nvars == <<prog, phase, nfun, body, open, elseOK, ndecl, viol, scope>>
+          scope,   \* the engine's scope chain as the implementation keeps it: Seq of [name, multi]
+          wrapped  \* the current function sits inside a conditional-compilation block (#ifdef ... #endif)
+nvars == <<prog, phase, nfun, body, open, elseOK, ndecl, viol, scope, wrapped>>
 
 NoViol == [op |-> "none", line |-> 0, code |-> {}, site |-> [k |-> "", lit |-> "", prev |-> "", next |-> "", first |-> "", tabs |-> 0]]
 TAB1 == [s |-> "T", x |-> "\t", w |-> 0, n |-> 0]
@@ -105,7 +106,7 @@ ParamLists == IF Sim
 (* File prologue                                                           *)
 (***************************************************************************)
 Init == /\ prog = <<HeaderLine>> /\ phase = "after_header" /\ nfun = 0 /\ body = 0 /\ open = <<>> /\ elseOK = 0
-        /\ ndecl = 0 /\ viol = NoViol /\ scope = << [name |-> "GlobalScope", multi |-> FALSE] >>
+        /\ ndecl = 0 /\ viol = NoViol /\ scope = << [name |-> "GlobalScope", multi |-> FALSE] >> /\ wrapped = FALSE
 
 IncludeLine(sys, w) == Line("include", "IsPreprocessorStatement",
                             IF sys THEN <<L("#include <", 10), Slot("inc", w, 0), L(".h>", 3)>>
@@ -128,6 +129,7 @@ ProtoLine(static, t, wMax, st, w, i, params) ==
          \o params \o <<L(");", 2)>>)
 MaxOf(f, n) == IF n = 0 THEN 0 ELSE f[CHOOSE i \in 1..n : \A j \in 1..n : f[j] <= f[i]]
 FileComments == {Line("comment", "IsComment", <<L("/* ", 3), Slot("txt", 12, 0), L(" */", 3)>>),
+                 Line("comment", "IsComment", <<L("/*", 2), Slot("txt", 10, 0), L("*/", 2)>>),
                  Line("comment", "IsComment", <<L("// ", 3), Slot("txt", 20, 0)>>),
                  Line("comment", "IsComment3", <<L("/*", 2)>>) }      \* a three-line block comment, rendered from a template
 
@@ -155,7 +157,7 @@ Prologue ==
                /\ EmitAll(<<Empty>> \o incs \o (IF ninc > 0 THEN <<Empty>> ELSE <<>>) \o defs \o (IF ndef > 0 THEN <<Empty>> ELSE <<>>)
                           \o gl \o (IF ng > 0 THEN <<Empty>> ELSE <<>>) \o pl \o (IF np > 0 THEN <<Empty>> ELSE <<>>))
     /\ phase' = "toplevel"
-    /\ UNCHANGED <<nfun, body, open, elseOK, ndecl, viol, scope>>
+    /\ UNCHANGED <<nfun, body, open, elseOK, ndecl, viol, scope, wrapped>>
 
 (***************************************************************************)
 (* Header files: guard, indented directives, type blocks, prototypes       *)
@@ -212,7 +214,7 @@ HPrologue ==
                           \o incs \o (IF ninc > 0 THEN <<Empty>> ELSE <<>>) \o defs \o (IF ndef > 0 THEN <<Empty>> ELSE <<>>)
                           \o Blocks(1) \o pl \o (IF np > 0 THEN <<Empty>> ELSE <<>>) \o GuardClose)
     /\ phase' = "done" /\ nfun' = 0
-    /\ UNCHANGED <<body, open, elseOK, ndecl, viol, scope>>
+    /\ UNCHANGED <<body, open, elseOK, ndecl, viol, scope, wrapped>>
 
 (***************************************************************************)
 (* Function definitions                                                    *)
@@ -225,8 +227,17 @@ StartFunc ==
     /\ \E rt \in Pick(RetTypes), st \in Pick(0..1), w \in Pick({4, 7, 10}), ps \in (IF Sim THEN Pick(ParamLists) ELSE ParamLists) :
         LET h == FuncHead(rt, st, w, ps) IN
         /\ LineWidth(h) <= 80
-        /\ \E cm \in (IF Sim THEN Pick({<<>>, <<>>, <<>>} \cup {<<c>> : c \in FileComments}) ELSE {<<>>}) :
-             EmitAll((IF nfun > 0 THEN <<Empty>> ELSE <<>>) \o cm \o <<h, Line("lbrace", "IsBlockStart", <<L("{", 1)>>)>>)
+        /\ \E cm \in (IF Sim THEN Pick({<<>>, <<>>, <<>>} \cup {<<c>> : c \in FileComments}) ELSE {<<>>}),
+              wr \in (IF Sim THEN Pick({"none", "none", "none", "none", "ifdef_empty", "ifdef_comment", "if_defined"}) ELSE {"none"}) :
+             LET cond == IF wr = "if_defined"
+                         THEN Line("cond", "IsPreprocessorStatement", <<L("#if defined(", 12), Slot("m", 5, 30 + nfun), L(") && ", 5), Slot("m", 4, 40 + nfun), L(" > ", 3), N1>>)
+                         ELSE Line("cond", "IsPreprocessorStatement", <<L(IF nfun % 2 = 0 THEN "#ifdef " ELSE "#ifndef ", IF nfun % 2 = 0 THEN 7 ELSE 8), Slot("m", 6, 30 + nfun)>>)
+                 (* a comment glued between the directive and the function stands for the empty line (the tool's rule) *)
+                 pre == IF wr = "none" THEN cm
+                        ELSE IF wr = "ifdef_comment" THEN <<cond, Line("comment", "IsComment", <<L("// ", 3), Slot("txt", 14, 0)>>)>>
+                        ELSE <<cond, Empty>> \o cm
+             IN /\ EmitAll((IF nfun > 0 THEN <<Empty>> ELSE <<>>) \o pre \o <<h, Line("lbrace", "IsBlockStart", <<L("{", 1)>>)>>)
+                /\ wrapped' = (wr # "none")
     /\ phase' = "decls" /\ nfun' = nfun + 1 /\ body' = 0 /\ open' = <<>> /\ elseOK' = 0 /\ ndecl' = 0
     /\ scope' = PushScope("Function", TRUE)
     /\ UNCHANGED viol
@@ -248,7 +259,7 @@ Decls ==
         /\ body' = n + (IF n > 0 THEN 1 ELSE 0)
         /\ ndecl' = n
     /\ phase' = "body"
-    /\ UNCHANGED <<nfun, open, elseOK, viol, scope>>
+    /\ UNCHANGED <<nfun, open, elseOK, viol, scope, wrapped>>
 
 (* ---- statements ------------------------------------------------------------- *)
 Depth == 1 + Len(open)                     \* indentation of the next statement
@@ -291,7 +302,7 @@ Simple ==
     /\ elseOK' = ElseTarget(ClosedBy(open))
     /\ open' = CloseBraceless(open)
     /\ scope' = PopControls(scope)
-    /\ UNCHANGED <<phase, nfun, ndecl, viol>>
+    /\ UNCHANGED <<phase, nfun, ndecl, viol, wrapped>>
 
 CtrlHead(kw, c) == <<L(kw, IF kw = "if (" THEN 4 ELSE IF kw = "while (" THEN 7 ELSE 9)>> \o c \o <<L(")", 1)>>
 Control ==
@@ -312,7 +323,7 @@ Control ==
         /\ body' = body + (IF braced THEN 2 ELSE 1)
         /\ scope' = PushScope("ControlStructure", braced)
     /\ elseOK' = 0
-    /\ UNCHANGED <<phase, nfun, ndecl, viol>>
+    /\ UNCHANGED <<phase, nfun, ndecl, viol, wrapped>>
 
 CloseBlock ==
     /\ phase = "body" /\ open # <<>> /\ open[Len(open)].braced /\ open[Len(open)].n >= 1 /\ body < MaxBody
@@ -322,14 +333,17 @@ CloseBlock ==
         /\ elseOK' = ElseTarget(<<open[Len(open)]>> \o ClosedBy(rest))
         /\ open' = CloseBraceless(rest)
     /\ scope' = PopControls(SubSeq(scope, 1, Len(scope) - 1))
-    /\ UNCHANGED <<phase, nfun, ndecl, viol>>
+    /\ UNCHANGED <<phase, nfun, ndecl, viol, wrapped>>
 
 Reserve == ReserveOf(open)
 
 EndFunc ==
     /\ phase = "body" /\ open = <<>> /\ body >= 1
     /\ prog[Len(prog)].k \in {"stmt", "rbrace"}
-    /\ Emit(Line("rbrace", "IsBlockEnd", <<L("}", 1)>>))
+    /\ \E gap \in (IF Sim THEN Pick(BOOLEAN) ELSE {TRUE}) :
+         EmitAll(<<Line("rbrace", "IsBlockEnd", <<L("}", 1)>>)>>
+                 \o (IF wrapped THEN (IF gap THEN <<Empty>> ELSE <<>>) \o <<Line("endif", "IsPreprocessorStatement", <<L("#endif", 6)>>)>> ELSE <<>>))
+    /\ wrapped' = FALSE
     /\ phase' = "toplevel"
     /\ scope' = SubSeq(scope, 1, Len(scope) - 1)
     /\ elseOK' = 0
@@ -338,7 +352,7 @@ EndFunc ==
 Finish ==
     /\ phase = "toplevel" /\ nfun >= 1
     /\ phase' = "done"
-    /\ UNCHANGED <<prog, nfun, body, open, elseOK, ndecl, viol, scope>>
+    /\ UNCHANGED <<prog, nfun, body, open, elseOK, ndecl, viol, scope, wrapped>>
 
 (* never paint into a corner: every open braced block must still be closable within MaxBody *)
 Feasible == phase = "body" => body + Reserve <= MaxBody
